@@ -173,23 +173,29 @@ def layout(spec, prog, subs, mapobjs, sizes):
 
 
 # ------------------------------------------------------------ program side
+def make_program(spec):
+    from .. import dsl
+    import ebpfcat.arraymap as am
+    reg = dsl.new_registry()
+    Base, Prog, Sub, subs, mapobjs, emit = build(dsl.ebpf, am, spec)
+    e = Prog(dsl.ProgType.XDP, "GPL", subprograms=subs)
+    emit(e, "b")
+    emit(e, "p")
+    for s in subs:
+        s.program()
+    e.r0 = 0
+    e.exit()
+    code = e.assemble()
+    return e, subs, mapobjs, code, list(reg.maps)
+
+
 def program_side(seed, q, res):
     from .. import dsl
     from ..bpfsym import Env, bv, decode, load, merge, run
     spec = gen_spec(seed)
     name = f"declaration set seed {seed} (program side)"
-    reg = dsl.new_registry()
-    import ebpfcat.arraymap as am
-    Base, Prog, Sub, subs, mapobjs, emit = build(dsl.ebpf, am, spec)
     try:
-        e = Prog(dsl.ProgType.XDP, "GPL", subprograms=subs)
-        emit(e, "b")
-        emit(e, "p")
-        for s in subs:
-            s.program()
-        e.r0 = 0
-        e.exit()
-        code = e.assemble()
+        e, subs, mapobjs, code, maps = make_program(spec)
     except Exception as ex:
         res["obligations"] += 1
         res["violations"].append(dict(
@@ -198,7 +204,6 @@ def program_side(seed, q, res):
                  f"{type(ex).__name__}: {ex}", witness=dict(spec=spec),
             replay=dict(seed=seed)))
         return
-    maps = list(reg.maps)
     res["programs"] += 1
     by = {}
     for mname, mo in mapobjs.items():
@@ -393,9 +398,10 @@ def python_harness(seed):
             d = E.bytes(f"percpu{fd}", n)
             percpu_data[fd] = d
             return d
-        saved = (am.create_map, am.mmap, am.cpu_count, am.lookup_elem)
+        saved = (am.create_map, am.mmap, am.lookup_elem)
         am.create_map, am.mmap, am.lookup_elem = create_map, mmap, lookup_elem
-        am.cpu_count = lambda: CPUS
+        from .. import bpfkernel
+        undo_cpus = bpfkernel.stub_cpus(am, CPUS, CPUS)
         pysym.SYM_BYTEARRAYS = True
         try:
             Base, Prog, Sub, subs, mapobjs, emit = build(ebpf_mod, am, spec)
@@ -485,7 +491,8 @@ def python_harness(seed):
                             f"per-CPU {v['fmt']} variable: CPU {cpu}'s value "
                             "comes from that CPU's copy")
         finally:
-            am.create_map, am.mmap, am.cpu_count, am.lookup_elem = saved
+            am.create_map, am.mmap, am.lookup_elem = saved
+            undo_cpus()
             pysym.SYM_BYTEARRAYS = False
     return harness
 
